@@ -199,8 +199,13 @@ func (p Provider) PostValidationHook(map[string]ast.AnalyzedProgram, string, *an
 }
 
 func (p Provider) ResolveCodeModule(moduleName string) (string, bool, error) {
-	p.st.calls++
 	p.st.Resolved = append(p.st.Resolved, moduleName)
+	if _, have := p.Modules[moduleName]; !have && p.st.FailKind == "notfound" {
+		// "not found" is simply true for a name that is no script module (a builtin module is looked
+		// up as a script module first): answering it is not a fault
+		return "", false, nil
+	}
+	p.st.calls++
 	if p.st.FailAt == p.st.calls {
 		p.st.FaultHits++
 		if s := simrt.Active(); s != nil {
